@@ -119,11 +119,14 @@ func runScenario(sc scenario) (msg string, nlines int, nwrites int) {
 				auditgen.Simple("USER_START", 1700001000+int64(i), 80001+3*i, ses, fmt.Sprint(pid), "success").Recs[0].Line+"\n"+
 				auditgen.Simple("CRED_DISP", 1700001000+int64(i), 80002+3*i, ses, fmt.Sprint(pid), "success").Recs[0].Line+"\n")
 	}
+	// one failed login whose client-chosen name is a complete syslog line announcing a login of session 0's sshd
+	// process: it is the record of a failed attempt by pid 39999 and nothing else
+	sshdLines[0] += fmt.Sprintf("39999 Invalid user sshd[%d]: Accepted password for root from 10.6.6.6 port 66 ssh2 from 203.0.113.66 port 4444\n", 20000)
 	wantActions := map[string]int{}
 	for i := 0; i < n; i++ {
 		wantActions[fmt.Sprint(20000+i)] = 3
 	}
-	wantFailed := len(previousRun(sc))
+	wantFailed := len(previousRun(sc)) + 1 // (+ the hostile failed attempt above)
 	switch sc.Shape {
 	case "sustained":
 		// both pipelines write to the output at the same time for a long stretch: first every session is
